@@ -87,7 +87,17 @@ pub fn c09(seed: u64, budget: usize) -> Report {
             let img: Vec<[f32; 3]> = (0..w * h).map(|i| { let (x, y) = (i % w, i / w); blocks[(y >> ssy) * bw + (x >> ssx)] }).collect();
             let rgb = Rgb::new(img, w, h, tc_of(t).unwrap(), cp_of(p).unwrap()).unwrap();
             let y0 = Yuv::<u16>::try_from((&rgb, cfg)).unwrap();
-            let y1 = Yuv::<u16>::try_from((Xyb::try_from(&y0).unwrap(), cfg)).unwrap();
+            // every other image is re-wrapped with a different padding for each plane before it is decoded (the constructor accepts
+            // planes whose strides differ; the decoder must index each plane with its own stride)
+            let y0p = if r.below(2) == 0 { None } else {
+                let pads = [(0usize, 0usize), (16, 2), (40, 1)];
+                let mk = |pi: usize| { let src = &y0.data()[pi]; let (pw, ph) = (src.cfg.width, src.cfg.height);
+                    let mut p: Plane<u16> = Plane::new(pw, ph, src.cfg.xdec, src.cfg.ydec, pads[pi].0, pads[pi].1);
+                    for s in p.data.iter_mut() { *s = 77; }
+                    let stride = p.cfg.stride; let o = p.data_origin_mut();
+                    for yy in 0..ph { for xx in 0..pw { o[yy * stride + xx] = src.p(xx, yy); } } p };
+                Some(Yuv::<u16>::new(Frame { planes: [mk(0), mk(1), mk(2)] }, y0.config()).unwrap()) };
+            let y1 = Yuv::<u16>::try_from((Xyb::try_from(y0p.as_ref().unwrap_or(&y0)).unwrap(), cfg)).unwrap();
             rep.evaluated += (w * h) as u64;
             if y1.width() != w || y1.height() != h || y1.config() != y0.config() { rep.fail("dimensions/config not preserved", format!("{:?}", cfg), "".into(), "".into()); }
             let budget_codes = (0.015 * ((1u64 << bd) - 1) as f64).max(1.0);
